@@ -606,6 +606,85 @@ def tag(case, f):
     return None
 
 
+
+# ---------------------------------------------------------------------------------------------
+# a missing value held as a *label* (NaN in a float index, NaT in a datetime-typed or time-delta index): two containers built
+# alike are equal exactly when skipna is requested, whatever wraps the index
+
+@st.composite
+def missing_label_cases(draw):
+    ch = {'kind': draw(st.sampled_from(['float', 'date', 'second', 'timedelta', 'yearmonth'])), 'wrap': draw(st.sampled_from(['index', 'series', 'frame_index', 'frame_columns', 'series_he', 'frame_he', 'ih_leaf'])),
+          'skipna': draw(st.booleans()), 'other': draw(st.sampled_from(['same', 'same', 'real_label', 'no_missing']))}
+    n = draw(st.sampled_from([3, 2, 4, 1]))
+    return dict({'n': n, 'pos': draw(st.integers(0, n - 1))}, **ch)
+
+
+def _ml_index(case, variant):
+    n, pos, kind = case['n'], case['pos'], case['kind']
+    if kind == 'float':
+        labs = [float(i) + 0.5 for i in range(n)]
+        miss, real = float('nan'), 99.5
+        mk = lambda l: sf.Index(np.array(l, dtype=np.float64))  # noqa: E731
+    elif kind == 'timedelta':
+        labs = [np.timedelta64(i + 1, 'D') for i in range(n)]
+        miss, real = np.timedelta64('NaT', 'D'), np.timedelta64(99, 'D')
+        mk = lambda l: sf.Index(np.array(l, dtype='m8[D]'))  # noqa: E731
+    else:
+        unit, cls = {'date': ('D', sf.IndexDate), 'second': ('s', sf.IndexSecond), 'yearmonth': ('M', sf.IndexYearMonth)}[kind]
+        labs = [np.datetime64(600 + i, unit) for i in range(n)]
+        miss, real = np.datetime64('NaT', unit), np.datetime64(999, unit)
+        mk = lambda l: cls(np.array(l, dtype='M8[%s]' % unit))  # noqa: E731
+    labs = list(labs)
+    if variant == 'missing':
+        labs[pos] = miss
+    elif variant == 'real_label':
+        labs[pos] = real
+    return mk(labs)
+
+
+def _ml_wrap(case, ix):
+    w, n = case['wrap'], case['n']
+    if w == 'index':
+        return ix
+    if w == 'series':
+        return sf.Series(np.arange(n), index=ix)
+    if w == 'series_he':
+        return sf.SeriesHE(np.arange(n), index=ix)
+    if w == 'frame_index':
+        return sf.Frame(np.arange(n * 2).reshape(n, 2), index=ix, columns=('a', 'b'))
+    if w == 'frame_he':
+        return sf.FrameHE(np.arange(n * 2).reshape(n, 2), index=ix, columns=('a', 'b'))
+    if w == 'frame_columns':
+        return sf.Frame(np.arange(n * 2).reshape(2, n), index=('a', 'b'), columns=ix)
+    return sf.IndexHierarchy.from_index_items((('p', ix),))
+
+
+def check_missing_labels(case):
+    a = lib(lambda: _ml_wrap(case, _ml_index(case, 'missing' if case['other'] != 'no_missing' else 'plain')))
+    b = lib(lambda: _ml_wrap(case, _ml_index(case, {'same': 'missing', 'real_label': 'real_label', 'no_missing': 'plain'}[case['other']])))
+    if isinstance(a, Raised) or isinstance(b, Raised):
+        raise Discard('construction rejected')
+    skipna = case['skipna']
+    want = {'same': skipna, 'real_label': False, 'no_missing': True}[case['other']]
+    what = '%s labels, %s, other=%s' % (case['kind'], case['wrap'], case['other'])
+    for x, y, nm in ((a, b, 'a.equals(b)'), (b, a, 'b.equals(a)')):
+        r = lib(lambda: x.equals(y, skipna=skipna))
+        if isinstance(r, Raised):
+            raise Failure('raised:%s' % r.cls, '%s: %s(skipna=%s) raised %r' % (what, nm, skipna, r.exc), r.where)
+        if r is not want and r != want:
+            raise Failure('missing-label', '%s: %s(skipna=%s) is %r, expected %r (missing label at position %d of %d)' % (
+                what, nm, skipna, r, want, case['pos'], case['n']))
+    if case['wrap'] in ('series_he', 'frame_he'):
+        # == is equals with skipna (and the name compared); != its negation; equal containers hash alike
+        want_eq = {'same': True, 'real_label': False, 'no_missing': True}[case['other']]
+        e1, e2, ne = lib(lambda: a == b), lib(lambda: b == a), lib(lambda: a != b)
+        for r, nm, w in ((e1, 'a == b', want_eq), (e2, 'b == a', want_eq), (ne, 'a != b', not want_eq)):
+            if isinstance(r, Raised):
+                raise Failure('raised:%s' % r.cls, '%s: %s raised %r' % (what, nm, r.exc), r.where)
+            if r is not w:
+                raise Failure('missing-label', '%s: %s is %r, expected %r' % (what, nm, r, w))
+    return {'nt': case['other'] == 'same', 'cls': ['ml:' + case['kind'], 'ml-wrap:' + case['wrap'], 'ml-other:' + case['other'], 'skipna' if skipna else 'noskip']}
+
 # ---------------------------------------------------------------------------------------------
 # equal values under different per-column dtypes and block layouts (the receiver's and the argument's layout are
 # independent): equals must depend on the per-column dtypes only through compare_dtype, never on the layout
@@ -768,6 +847,8 @@ def check_shared(case):
 SUBS = [
     Sub('triples', cases(), check, quick=10000, thorough=48000, tag=tag,
         rule='equals vs reference predicate on recipes; symmetry; reflexivity on fresh copies; transitivity; HE ==/!=/hash/set'),
+    Sub('missing_labels', missing_label_cases(), check_missing_labels, quick=1600, thorough=8000,
+        rule='NaN / NaT held as a label (float, datetime-typed, time-delta indices; wrapped in Series / Frame / HE / hierarchy leaf): equal exactly under skipna, symmetric, == consistent'),
     Sub('shared_trees', shared_cases(), check_shared, quick=4000, thorough=24000,
         rule='hierarchies from from_product / from_index_items (shared Index objects) vs the same or one-label-different labels built by from_labels; both directions; Series / Frame / FrameHE wrappers'),
     Sub('dtype_layouts', dl_cases(), check_dl, quick=8000, thorough=48000,
